@@ -1,0 +1,133 @@
+//go:build verif
+
+// Verification hooks for the SM2 curve object (p256.go).  Add-only: thin exported wrappers around the
+// unexported field / point / scalar-recoding functions.  Compiled only with -tags verif.
+package sm2
+
+import "math/big"
+
+// VerifFeMul returns sm2P256Mul(a, b) (limbs, Montgomery form).
+func VerifFeMul(a, b [9]uint32) [9]uint32 {
+	P256Sm2()
+	var c sm2P256FieldElement
+	x, y := sm2P256FieldElement(a), sm2P256FieldElement(b)
+	sm2P256Mul(&c, &x, &y)
+	return [9]uint32(c)
+}
+
+// VerifFeSquare returns sm2P256Square(a).
+func VerifFeSquare(a [9]uint32) [9]uint32 {
+	P256Sm2()
+	var c sm2P256FieldElement
+	x := sm2P256FieldElement(a)
+	sm2P256Square(&c, &x)
+	return [9]uint32(c)
+}
+
+// VerifFeAdd returns sm2P256Add(a, b).
+func VerifFeAdd(a, b [9]uint32) [9]uint32 {
+	P256Sm2()
+	var c sm2P256FieldElement
+	x, y := sm2P256FieldElement(a), sm2P256FieldElement(b)
+	sm2P256Add(&c, &x, &y)
+	return [9]uint32(c)
+}
+
+// VerifFeSub returns sm2P256Sub(a, b).
+func VerifFeSub(a, b [9]uint32) [9]uint32 {
+	P256Sm2()
+	var c sm2P256FieldElement
+	x, y := sm2P256FieldElement(a), sm2P256FieldElement(b)
+	sm2P256Sub(&c, &x, &y)
+	return [9]uint32(c)
+}
+
+// VerifFromBig returns sm2P256FromBig(a).
+func VerifFromBig(a *big.Int) [9]uint32 {
+	P256Sm2()
+	var c sm2P256FieldElement
+	sm2P256FromBig(&c, a)
+	return [9]uint32(c)
+}
+
+// VerifToBig returns sm2P256ToBig(a).
+func VerifToBig(a [9]uint32) *big.Int {
+	P256Sm2()
+	x := sm2P256FieldElement(a)
+	return sm2P256ToBig(&x)
+}
+
+// VerifReduceDegree returns sm2P256ReduceDegree(b).
+func VerifReduceDegree(b [17]uint64) [9]uint32 {
+	P256Sm2()
+	var c sm2P256FieldElement
+	t := sm2P256LargeFieldElement(b)
+	sm2P256ReduceDegree(&c, &t)
+	return [9]uint32(c)
+}
+
+// VerifPointDouble returns sm2P256PointDouble(x, y, z) (distinct output variables).
+func VerifPointDouble(x, y, z [9]uint32) (x3, y3, z3 [9]uint32) {
+	P256Sm2()
+	var ox, oy, oz sm2P256FieldElement
+	ix, iy, iz := sm2P256FieldElement(x), sm2P256FieldElement(y), sm2P256FieldElement(z)
+	sm2P256PointDouble(&ox, &oy, &oz, &ix, &iy, &iz)
+	return [9]uint32(ox), [9]uint32(oy), [9]uint32(oz)
+}
+
+// VerifPointAddMixed returns sm2P256PointAddMixed(x1, y1, z1, x2, y2).
+func VerifPointAddMixed(x1, y1, z1, x2, y2 [9]uint32) (x3, y3, z3 [9]uint32) {
+	P256Sm2()
+	var ox, oy, oz sm2P256FieldElement
+	a, b, c := sm2P256FieldElement(x1), sm2P256FieldElement(y1), sm2P256FieldElement(z1)
+	d, e := sm2P256FieldElement(x2), sm2P256FieldElement(y2)
+	sm2P256PointAddMixed(&ox, &oy, &oz, &a, &b, &c, &d, &e)
+	return [9]uint32(ox), [9]uint32(oy), [9]uint32(oz)
+}
+
+// VerifPointAdd returns sm2P256PointAdd(x1, y1, z1, x2, y2, z2).
+func VerifPointAdd(x1, y1, z1, x2, y2, z2 [9]uint32) (x3, y3, z3 [9]uint32) {
+	P256Sm2()
+	var ox, oy, oz sm2P256FieldElement
+	a, b, c := sm2P256FieldElement(x1), sm2P256FieldElement(y1), sm2P256FieldElement(z1)
+	d, e, f := sm2P256FieldElement(x2), sm2P256FieldElement(y2), sm2P256FieldElement(z2)
+	sm2P256PointAdd(&a, &b, &c, &d, &e, &f, &ox, &oy, &oz)
+	return [9]uint32(ox), [9]uint32(oy), [9]uint32(oz)
+}
+
+// VerifPointSub returns sm2P256PointSub(x1, y1, z1, x2, y2, z2) and, as 4th result, the content of y2
+// after the call (the function negates *y2 in place).
+func VerifPointSub(x1, y1, z1, x2, y2, z2 [9]uint32) (x3, y3, z3, y2new [9]uint32) {
+	P256Sm2()
+	var ox, oy, oz sm2P256FieldElement
+	a, b, c := sm2P256FieldElement(x1), sm2P256FieldElement(y1), sm2P256FieldElement(z1)
+	d, e, f := sm2P256FieldElement(x2), sm2P256FieldElement(y2), sm2P256FieldElement(z2)
+	sm2P256PointSub(&a, &b, &c, &d, &e, &f, &ox, &oy, &oz)
+	return [9]uint32(ox), [9]uint32(oy), [9]uint32(oz), [9]uint32(e)
+}
+
+// VerifGenerateWNaf returns sm2GenrateWNaf(k) (digits, least significant first).
+func VerifGenerateWNaf(k []byte) []int8 {
+	P256Sm2()
+	return sm2GenrateWNaf(k)
+}
+
+// VerifGetScalar returns the little-endian 32-byte scalar sm2P256GetScalar derives from k.
+func VerifGetScalar(k []byte) [32]byte {
+	P256Sm2()
+	var b [32]byte
+	sm2P256GetScalar(&b, k)
+	return b
+}
+
+// VerifTables returns copies of the package-level constant tables.
+func VerifTables() (precomputed []uint32, zero31 [9]uint32, carry []uint32, factor [][9]uint32) {
+	P256Sm2()
+	precomputed = append([]uint32{}, sm2P256Precomputed[:]...)
+	zero31 = [9]uint32(sm2P256Zero31)
+	carry = append([]uint32{}, sm2P256Carry[:]...)
+	for _, f := range sm2P256Factor {
+		factor = append(factor, [9]uint32(f))
+	}
+	return
+}
